@@ -585,7 +585,10 @@ fn pool_worker_loop(pool: Arc<ThreadPool>, timeout: Option<Duration>) {
                     .wait_timeout(records, time_to_deadline)
                     .unwrap();
                 verif_emit!("WWoken", &[("to", wait_result.timed_out() as i64), ("avail", records.available_workers as i64), ("qlen", records.queue.len() as i64)]);
-                if wait_result.timed_out() {
+                // A submitter may have counted this worker as available
+                // and queued a task just as the wait timed out; only
+                // leave if there is nothing to run.
+                if wait_result.timed_out() && records.queue.is_empty() {
                     records.available_workers -= 1;
                     verif_emit!("WTimeoutExit", &[("avail", records.available_workers as i64), ("qlen", records.queue.len() as i64)]);
                     return;
